@@ -7,6 +7,7 @@ from checks import alloccommon
 from checks import arcslabcommon
 from checks import termcommon
 from checks import gcthreadcommon
+from checks import corecommon
 
 META = {
     "title": "exact reference counts and garbage collection",
@@ -35,6 +36,10 @@ META["level_note"] += " Terminal manager replay (package C07t): the replayed ref
 # package GCTHREAD (collector protocol of the index-based manager): coq/Mgr/GcThread*.v, theorems C05_gcthread_* / C07_gcthread_*, stage checks/gcthreadcommon.py
 META["level_text"] += " Collector protocol (package GCTHREAD, C05_gcthread_*, 22 theorems over coq/Mgr/GcThread.v = interleaving model of node_count vs gc_hwm / gc_lwm, gc_state, the gc_signal condition variable, gc_ongoing, the manager lock and the handle drops; mutual exclusion under C07_gcthread_*): under every schedule gc_state becomes Triggered iff a get_slot_from_shared finds Init and the count at or above gc_hwm (trigger_iff); the sleeping collector is woken exactly by that allocation or by the Quit of the handle that sees strong_count == 2, a notification while it is not inside wait is lost (wake_iff, notify_lost); from its wake-up test to the end of its epilogue the collector sees Triggered (coll_active_triggered); gc_state returns to Init iff the collector's epilogue finds the count below gc_lwm, and every schedule from Triggered to Init contains such an epilogue (reset_iff, resume_needs_epilogue); Triggered with a collector that is not on its way to an epilogue is absorbing under every action of every thread: the state stays Triggered and the collector never starts a collection again (stuck_forever, triggered_dichotomy, stuck_entry: the ways in are a lost notification, an epilogue at or above gc_lwm, quit); the Quit is stored iff a drop sees strong_count == 2, it is seen iff the collector is inside wait or notified at that moment, otherwise missed for ever (quit_sent_iff, quit_outcome, quit_seen_forever, quit_seen_exits, quit_missed_forever, asleep_forever); computed schedules next to a control run: automatic collection off after a sweep that ends at or above gc_lwm although the count falls to 0 and reaches gc_hwm again (auto_gc_resumes_refuted), lost wake-up before the first wait / between epilogue and wait (trigger_wakes_refuted), missed quit (quit_seen_refuted), two concurrent drops both reading strong_count == 3 (drop_quit_refuted); the two rules on gc_state are those of the replayed allocator model (trigger_rule_alloc, reset_rule_alloc). These are OBSERVATIONS outside the property texts (nothing demands that automatic collection resumes or that the collector thread ends): /repo is not changed; the stage checks/gcthreadcommon.py reproduces them on the real code (gc_count, thread names) and records the numbers in the evidence, never a verdict."
 META["level_note"] += " Package GCTHREAD: the model is proof-only except for its two gc_state rules (shared with the replayed ALLOC model); lock(); wait() of the collector and Quit-store + notify_one are single steps, the RwLock has no fairness, node_count changes are arbitrary integers (their relation to the slots is ALLOC), sweeps remove an unspecified set of nodes."
+
+# package CORETIE (the composed core model coq/Mgr/Core.v replayed against the code): coq/Extract/ExCore.v, ocaml/core_main.ml, stage checks/corecommon.py
+META["level_text"] += " Composed core model, tie (package CORETIE, stage checks/corecommon.py): the theorems C05_core_* (and C07_core_*, C14_core_*, C20_core_*, C01_core_*) are about kstep of coq/Mgr/Core.v (unique table + reported counts + ownership tokens on the node store on the slot allocator); that kstep is extracted and folded over ONE merged, mutex-ordered log of the allocator events and the table / count events (get_or_insert found / new with children, collector removals, clone_edge, drop_edge; case parameters alloc=1 core=1) of sequential histories (5..40 slots: out-of-memory, drop, gc, retry) and parallel blocks (2-4 threads + pool workers, PGC; 24..90 slots), from the new manager to the end of the case: the id of every new node must be the slot the model's allocator returns, every found node the model's, every failed call must fail in the model, and at every snapshot kproj of the model state must equal the lifted snapshot (ids, levels, children, REPORTED reference counts) and the allocator component the plain allocator replay; a count that differs, a slot handed out while it holds a node in the model, a release without an owned edge = violation of C05; OutOfMemory where the model inserts = violation of C14."
+META["level_note"] += " Package CORETIE: ownership by thread is not observable: the driver inserts KMove / KNot steps (no memory access) before an action that consumes owned edges; the children of a FAILED get_or_insert are not logged (reconstructed from the releases that follow, terminal children tried); Core.v has no apply cache: the clone of a weak cache edge to a node nobody can borrow is emulated by KGoi-found of the node's own shape (statistic cache_revivals_emulated); stores above 130 slots are not replayed on Core.v (unary handle variables; the multi-chunk allocator branches stay with the ALLOC stage)."
 
 ALLOWED_AXIOMS = ()
 
@@ -172,12 +177,15 @@ def run(ctx):
     term_cov = termcommon.run_stage(ctx)
     # package GCTHREAD: observations on the collector protocol on the real code (never a verdict)
     gct_cov = gcthreadcommon.run_stage(ctx)
+    # package CORETIE: the composed core model coq/Mgr/Core.v folded over the merged allocator + table + count event log
+    core_cov = corecommon.run_stage(ctx)
     ddcommon.run_dd(
         ctx, ["C05"], cases, proofs=False,
         extra_cov={"gc_model_cases_ok": ok_s, "gc_model_cases_bad": len(bad_s), "alloc_stage": alloc_cov, "alloc_stage_rule": alloccommon.RULE,
                    "arcslab_stage": slab_cov, "arcslab_stage_rule": arcslabcommon.RULE,
                    "term_stage": term_cov, "term_stage_rule": termcommon.RULE,
-                   "gcthread_stage": gct_cov, "gcthread_stage_rule": gcthreadcommon.RULE},
+                   "gcthread_stage": gct_cov, "gcthread_stage_rule": gcthreadcommon.RULE,
+                   "core_stage": core_cov, "core_stage_rule": corecommon.RULE},
         rule="MTBDD terminals: histories over I64 and F64 terminals with a snapshot after every op (model invariant on every lifted snapshot; every gc() and constant() replayed on the extracted terminal-manager model); managers with 3..12 terminal slots framed by the terminal capacity probe, constants re-created right after collections, gc before every op in a fifth of them; large managers (2-3 allocation chunks; thorough 2-5): sessions that create up to 1200 nodes, drop them and collect inside one manager session, then a capacity probe that fills the store completely; MTBDD histories (arithmetic, ite, restrict, constants; gc; final drop all + gc: no inner node and no terminal left, after every gc no unreferenced terminal survives); per kind (bdd, bcdd, zbdd): random histories (apply, quantification, substitution, clone, drop, drop on another thread, gc, add_vars, set_var_order) with a snapshot and the reference-count audit after every op and a final 'drop all; gc; snapshot'; small-capacity managers (120..500 nodes, automatic collection at the high-water mark, failing operations) framed by the capacity probe; tdd: 36 (thorough 300) random histories (constants, variables, not, 8 connectives, ite, cofactors, clone, drop, drop on another thread, gc, add_vars, set_var_order; 1 or 4 workers) with the generic audit AND the ternary audit td_rc_b after every op, no unreferenced node after gc, final 'drop all; gc; snapshot' = empty store; 24 (thorough 200) stores of 6..200 nodes framed by the ternary capacity probe T3FILL (single-node functions, all alive, until out-of-memory: every slot in use; per variable the 12 nodes with terminal children that a connective makes of x and the constant u, then nodes x0 op g at level 0), failing operations in between. non-trivial = case with >= 3 ops",
         allowed_axioms=ALLOWED_AXIOMS)
 
@@ -188,6 +196,8 @@ def replay(ctx, path):
         return alloccommon.replay(ctx, json.load(open(path)))
     if json.load(open(path)).get("driver") == "arcslab":
         return arcslabcommon.replay(ctx, json.load(open(path)))
+    if json.load(open(path)).get("driver") == "core":
+        return corecommon.replay(ctx, json.load(open(path)))
     if json.load(open(path)).get("driver") == "term":
         return termcommon.replay(ctx, json.load(open(path)))
     if "--c05s" in json.load(open(path)).get("drv_args", []):
